@@ -47,6 +47,8 @@ CHECKS = {
             'complete enumeration of (servlet, worker index) init-failure positions per generated tree; generated workloads x enter/exit/re-enter cycles x owned schedules; sampled real processes'),
     'C17': ('exploration', T_SIM + 'per-round multiset equality, no cross-round leak, termination of every party (deadlock/horizon verdicts); exact stop latency of ResponsiveQueue in virtual time; sampled real threads/processes with a stop event', SIM_NOTE + ' ' + REAL_NOTE,
             'm x n parties x queue bounds x rounds separated by renew x owned schedules incl. line-granular preemption inside queue.py; stop requests at generated virtual moments'),
+    'C18': ('exploration', 'property-based testing (Hypothesis): framing round trip write_record -> generated chunking -> read_record (pure), and generated request sets / handler latencies / connection counts / payload sizes against a real unix-socket server and real FIFOs; oracle: payload equality at handler and requester, response token == request token, exception class/args/remote traceback, stream and pipe order', REAL_NOTE,
+            'generated payloads (newlines, header look-alikes, empty, multi-megabyte, nested) x chunk boundaries; concurrent tokenised requests over 1-4 connections with generated latencies; FIFO object sequences in both directions'),
     'C19': ('exploration', T_SIM + 'validity predicates over the (virtual time, batch) log: partition, sizes, exact deadline rule with stall budget 0', SIM_NOTE,
             'generated arrival-time sequences x batch_size x wait x marker kind x schedules; timing checked exactly in virtual time'),
 }
